@@ -488,7 +488,15 @@ std::string spell(Rng &r, const Pat &p) {
         std::string m = r.chance(1, 2) ? k.shortf : k.longf;
         for (auto &c : m)
             if (r.chance(1, 3)) c = (char) tolower((unsigned char) c);
-        if (k.numeric && r.chance(2, 3)) m += std::to_string(r.below(20));
+        if (k.numeric && r.chance(2, 3)) {
+            if (r.chance(1, 8)) {
+                // long suffixes: leading zeros, more digits than an int32 has
+                long nd = r.range(5, 14);
+                for (long d = 0; d < nd; d++) m += (char) ('0' + (d < 3 && r.chance(1, 2) ? 0 : r.below(10)));
+            } else {
+                m += std::to_string(r.below(20));
+            }
+        }
         s += (first ? "" : ":") + m;
         first = false;
         any = true;
